@@ -150,6 +150,7 @@ def check_export(results, header, stats=None, split=None, reuse=False):
             check(g[t] == v, f'tag {t} read back with a different value', rc, {'got': g[t], 'written': v})
         hands = guard('Deal tag does not decode', rc, Hands.convert_pbn, g['Deal'])
         check(be.hands_to_ints(hands) == PL.hands_of(r['owner']), 'Deal tag decodes to different hands', rc, {'Deal': g['Deal']})
+        be.use_deal(hands, i)        # the decoded deal is played on; the second read below must still recover the deal written
         check(list(g.keys())[:15] == MP.MANDATORY_EXPORT_TAGS, 'mandatory tags are not in the prescribed order', rc, {'got': list(g.keys())})
     bs = guard('PbnParser.parse_board_settings raises on PbnWriter output', case,
                lambda: (shared if reuse else PbnParser()).parse_board_settings(io.StringIO(text)))
